@@ -1123,6 +1123,9 @@ class MemoryCache:
         self.lru_deque = deque()
         self.cache = dict()
         self.refs = WeakValueDictionary()
+        # content key of the result each weak reference belongs to (entries may outlive their
+        # weak reference: only consulted together with it)
+        self.ref_content_keys = dict()
         self._lock = RLock()
 
     @staticmethod
@@ -1256,7 +1259,12 @@ class MemoryCache:
             return entry.value
         else:
             # return a cached ref if it's still in memory
-            return self.refs[cache_key]  # May raise KeyError
+            result = self.refs[cache_key]  # May raise KeyError
+            if self.ref_content_keys.get(cache_key) != memento.content_key:
+                # The call was memoized again since this memento was obtained: the value still
+                # in memory is not the one this memento refers to
+                raise KeyError()
+            return result
 
     @_synchronized
     def is_memoized(self, fn_reference: FunctionReference, arg_hash: str) -> bool:
@@ -1270,19 +1278,26 @@ class MemoryCache:
     def is_all_memoized(self, fns: Iterable[FunctionReferenceWithArguments]) -> bool:
         return all([self.is_memoized(x.fn_reference, x.arg_hash) for x in fns])
 
-    def _put_ref(self, cache_key, result):
+    def _put_ref(self, cache_key, result, content_key=None):
         try:
             self.refs[cache_key] = result
+            self.ref_content_keys[cache_key] = content_key
+            if len(self.ref_content_keys) > 2 * len(self.refs) + 64:
+                # drop the records of weak references that are gone
+                self.ref_content_keys = {
+                    key: self.ref_content_keys.get(key) for key in list(self.refs.keys())
+                }
         except TypeError:
             # primitives like ints, strs, and dicts can't be weakrefed; do not keep serving
             # the value this one replaces
             self.refs.pop(cache_key, None)
+            self.ref_content_keys.pop(cache_key, None)
 
     @_synchronized
     def put(self, memento: Memento, result: object, has_result: bool):
         cache_key = self._cache_key_for_memento(memento)
         if has_result:
-            self._put_ref(cache_key, result)
+            self._put_ref(cache_key, result, memento.content_key)
 
         # If the object is too big to fit in the cache, return immediately
         obj_size = self._estimate_object_size(result)
@@ -1296,7 +1311,7 @@ class MemoryCache:
         # memory leaks
         if isinstance(result, pd.DataFrame) or isinstance(result, pd.Series):
             result = result.copy()
-            self._put_ref(cache_key, result)
+            self._put_ref(cache_key, result, memento.content_key)
 
         # Remove any existing cached items for this memento
         self._evict(cache_key)
